@@ -157,7 +157,7 @@ impl Prop for C15 {
         Some("all values of u8, i8, u16, i16 for all 12 integer column kinds; all listed boundary values of the wider types".into())
     }
     fn cases(&self, tier: Tier) -> u64 {
-        tier.pick(20_000, 2_000_000)
+        tier.pick(400000, 4000000)
     }
     fn choice_len(&self) -> usize {
         64
